@@ -11,6 +11,8 @@
 (* Truncated directions get coefficient 0 (minimum norm); for the others   *)
 (* the weights cancel: c_j = y_j / j.  Borderline sigma_j = threshold is   *)
 (* not enumerated (the decomposition is only accurate to rounding).        *)
+(* Supplied thresholds include subnormal numbers and exactly zero: any     *)
+(* finite value is used as given.                                          *)
 (***************************************************************************)
 EXTENDS Integers, Sequences, FiniteSets, TLC, Json
 
@@ -19,9 +21,17 @@ CONSTANTS Tier
 Scalars == {"f32", "f64"}
 MachEpsExp(sc) == IF sc = "f32" THEN 23 ELSE 52
 Exps == {0, 10, 20, 30, 45, 60}
+\* user thresholds +-2^-u; u = 140 is a subnormal number in f32, u = 1050 a subnormal number in f64 and
+\* underflows to zero in f32; kind "zero" is a threshold of exactly +-0: |eps| = 0, nothing positive is
+\* at or below it (what a caller whose basis functions are tiny has to ask for)
 Thresholds == {[kind |-> "default", u |-> 0, neg |-> FALSE]}
-              \cup {[kind |-> "user", u |-> u, neg |-> n] : u \in {15, 40}, n \in BOOLEAN}
-ThExp(sc, thr) == IF thr.kind = "default" THEN MachEpsExp(sc) ELSE thr.u
+              \cup {[kind |-> "user", u |-> u, neg |-> n] : u \in {15, 40, 140, 1050}, n \in BOOLEAN}
+              \cup {[kind |-> "zero", u |-> 0, neg |-> n] : n \in BOOLEAN}
+NoThreshold == 100000
+SmallestExp(sc) == IF sc = "f32" THEN 149 ELSE 1074
+ThExp(sc, thr) == IF thr.kind = "default" THEN MachEpsExp(sc)
+                  ELSE IF thr.kind = "zero" \/ thr.u > SmallestExp(sc) THEN NoThreshold
+                  ELSE thr.u
 
 RECURSIVE Pow2(_)
 Pow2(n) == IF n = 0 THEN 1 ELSE 2 * Pow2(n - 1)
@@ -32,12 +42,17 @@ VARIABLES sc, M, N, ks, thr, Y
 vars == <<sc, M, N, ks, thr, Y>>
 
 YVals == {-2, 1, 3}
+\* right hand sides: every single column (two columns in the thorough tier) over YVals, and fixed
+\* patterns with 3 and 5 columns, so that there are more right hand sides than basis functions
+WideY(n, S, v) == [i \in 1..n |-> [s \in 1..S |-> ((i * (s + v) + s * s) % 5) - 2]]
+YChoices(n) == [1..n -> [1..(IF Tier = "thorough" THEN 2 ELSE 1) -> YVals]]
+               \cup {WideY(n, S, v) : S \in {3, 5}, v \in 0..1}
 Init == /\ sc \in Scalars
         /\ M \in 1..(IF Tier = "thorough" THEN 3 ELSE 2)
         /\ N \in {M, M + 1}
         /\ ks \in [1..M -> Exps]
         /\ thr \in Thresholds
-        /\ Y \in [1..N -> [1..(IF Tier = "thorough" THEN 2 ELSE 1) -> YVals]]
+        /\ Y \in YChoices(N)
         /\ \A j \in 1..M : ~Borderline(j, ks[j], ThExp(sc, thr))
 Next == UNCHANGED vars
 Spec == Init /\ [][Next]_vars
